@@ -95,9 +95,10 @@ func init() {
 		"log.Printf":   func(fr *frame, a []value) value { fr.i.noteStub("log.Printf"); return nil },
 		"log.Println":  func(fr *frame, a []value) value { fr.i.noteStub("log.Println"); return nil },
 
-		"errors.Is":                          extErrorsIs,
-		"internal/reflectlite.TypeOf":        extReflectliteDummyType,
-		"(*internal/reflectlite.rtype).Elem": extReflectliteDummyType,
+		"errors.Is": extErrorsIs,
+		"github.com/peterstace/simplefeatures/geom.ulpSize": extGeomUlpSize,
+		"internal/reflectlite.TypeOf":                       extReflectliteDummyType,
+		"(*internal/reflectlite.rtype).Elem":                extReflectliteDummyType,
 
 		"sort.Slice":       extSortSlice,
 		"sort.SliceStable": extSortSliceStable,
@@ -662,4 +663,43 @@ func extStrconvParseFloat(fr *frame, a []value) value {
 		}
 	}
 	return runBody{}
+}
+
+// geom.ulpSize(f) = nextafter(f) - f is a bit-level function; for an
+// exact-domain argument (non-negative, |f| < 2^12) it is modelled as the table
+// of binades (an ite tree of constants). Concrete arguments run the real body.
+func extGeomUlpSize(fr *frame, a []value) value {
+	i := fr.i
+	s, ok := a[0].(sym)
+	if !ok || s.t.S.K != KReal {
+		return runBody{}
+	}
+	st := i.st
+	i.noteStub("geom.ulpSize (binade table for exact-domain values)")
+	x := s.t
+	if !x.RealExact() {
+		panic(unsupported{"ulpSize of an inexact value"})
+	}
+	z := st.RealOfFloat(0)
+	if i.decide(st.RealCmp("<", x, z)) {
+		panic(unsupported{"ulpSize of a negative exact-domain value"})
+	}
+	mk := func(f float64) *Term { return st.RealOfFloat(f) }
+	// x >= 2^12 is outside the model
+	if i.decide(st.RealCmp("<=", mk(4096), x)) {
+		panic(unsupported{"ulpSize of an exact-domain value >= 2^12"})
+	}
+	t := mk(math.Ldexp(1, 11-52))
+	for e := 10; e >= -6; e-- {
+		t = st.Ite(st.RealCmp("<", x, mk(math.Ldexp(1, e+1))), mk(math.Ldexp(1, e-52)), t)
+	}
+	// below 2^-6 only zero occurs for lattice-derived values
+	small := st.RealCmp("<", x, mk(math.Ldexp(1, -6)))
+	if i.decide(small) {
+		if i.decide(st.Eq(x, z)) {
+			return i.mkSym(mk(5e-324), types.Float64)
+		}
+		panic(unsupported{"ulpSize of a tiny non-zero exact-domain value"})
+	}
+	return i.mkSym(t, types.Float64)
 }
